@@ -302,7 +302,7 @@ pub fn insert_after_cases(trace: Vec<String>, extras: Vec<(usize, String)>) -> V
 }
 
 pub fn run(ops: &[String]) -> Vec<String> {
-	let trace = run_cases(ops, Some(Duration::from_millis(1500)), exec);
+	let trace = run_cases(ops, Some(Duration::from_secs(10)), exec);
 	let extra = fault_oracles(ops, &trace, "transport");
 	insert_after_cases(trace, extra)
 }
